@@ -134,8 +134,22 @@ def visitCallSelf (i : Ids) (d u : List Name) (b : Body) : Ids :=
 def Ids.addDeclared (i : Ids) (x : Name) : Ids :=
   { i with declared := i.declared ++ [x], undeclared := i.undeclared.filter (fun y => decide (y ≠ x)) }
 
+/-- a collection of `_Identifiers` by its Python attribute name (dict-valued ones: their keys) -/
+def Ids.collection (i : Ids) : String → List Name
+  | "locally_declared" => i.locDecl
+  | "argument_declared" => i.argDecl
+  | "closuredefs" => i.closdefs
+  | "topleveldefs" => i.topdefs
+  | "declared" => i.declared
+  | "undeclared" => i.undeclared
+  | "locally_assigned" => i.locAssigned
+  | _ => []
+
+/-- the names the reserved-name test looks at (the collections are regenerated from `_Identifiers.__init__`) -/
+def Ids.checked (i : Ids) : List Name := Generated.Names.reservedCheckedCollections.flatMap i.collection
+
 /-- the reserved-name test at the end of `_Identifiers.__init__` -/
-def Ids.conflicts (c : Cfg) (i : Ids) : List Name := c.reserved.filter (fun n => decide (n ∈ i.locDecl))
+def Ids.conflicts (c : Cfg) (i : Ids) : List Name := c.reserved.filter (fun n => decide (n ∈ i.checked))
 
 /-! ## `write_variable_declares` -/
 
@@ -156,6 +170,24 @@ def toWrite (c : Cfg) (i : Ids) (limit : Option (List Name)) : List Name :=
   match limit with
   | none => w
   | some l => w.filter (fun x => decide (x ∈ l))
+
+/-- Python's `str` order on names: lexicographic by code point -/
+def nameLe : Name → Name → Bool
+  | [], _ => true
+  | _ :: _, [] => false
+  | a :: as, b :: bs => if a.toNat < b.toNat then true else if b.toNat < a.toNat then false else nameLe as bs
+
+def insertName (x : Name) : List Name → List Name
+  | [] => [x]
+  | y :: ys => if nameLe x y then x :: y :: ys else y :: insertName x ys
+
+/-- `sorted(names)` -/
+def sortNames : List Name → List Name
+  | [] => []
+  | x :: xs => insertName x (sortNames xs)
+
+/-- the order in which `for ident in sorted(to_write)` emits the declarations -/
+def emitOrder (c : Cfg) (i : Ids) (limit : Option (List Name)) : List Name := sortNames (toWrite c i limit)
 
 /-- what one iteration of the loop emits -/
 inductive DeclKind where
@@ -416,6 +448,17 @@ def ownOf : Body → List (Name × Nat)
   | .defn _ _ _ _ _ r => ownOf r
   | .block _ _ _ _ _ _ r => ownOf r
   | .call _ _ _ _ _ r => ownOf r
+
+/-- names bound by the leaves of the list, *through its blocks* (as `visitBlockTag` traverses them) -/
+def declsThrough : Body → List Name
+  | .nil => []
+  | .leaf _ d _ r => d ++ declsThrough r
+  | .text _ _ r => declsThrough r
+  | .code _ d _ r => d ++ declsThrough r
+  | .page _ a _ r => a ++ declsThrough r
+  | .defn _ _ _ _ _ r => declsThrough r
+  | .block _ _ _ _ _ b r => declsThrough b ++ declsThrough r
+  | .call _ _ _ _ _ r => declsThrough r
 
 /-- names read by the nodes of the list itself -/
 def readsOf : Body → List Name
